@@ -25,6 +25,7 @@ func init() {
 			"H1 also: the escape set equals the POSIX set (an extra escaped byte keeps its backslash inside double quotes). " +
 			"H4 the jobscript file and the submit command's stdin receive the jobScript result itself. " +
 			"H5 every return of shellSafeQuote is built by appendShellSafeQuote, or is the argument itself under a MatchString of a constant pattern ^[class]+$ whose class (computed with regexp/syntax) contains only characters inert in sh. " +
+			"H3 (round 9) also: the placeholders replaced by already-quoted values stand outside quotes on shell lines. " +
 			"NOT decided: invalid UTF-8 bytes (written as \\ooo, a documented extension), JOB_NAME/RESOURCES, each cluster's directive parser.",
 		Assumptions: append([]string{"POSIX XCU 2.2.3: inside double quotes exactly $, `, \" and \\ (and newline after \\) keep a special meaning"}, commonAssumptions...),
 	}
@@ -347,6 +348,37 @@ func runC18(c *an.Ctx) {
 		}
 	}
 	c.Floor("H3", "templates containing __MRO_CMD__", n, 8)
+	// H3b: the placeholders whose values jobScript substitutes already wrapped in double quotes
+	// (shellSafeQuote results: STDOUT, STDERR, JOB_WORKDIR) stand outside quotes on shell lines.
+	// Quoting them again in the template ("__MRO_STDOUT__") closes the quote before the value and
+	// opens it after: the path itself is then unquoted and blanks, ;, &, ( in a pipestance path are
+	// interpreted by the shell (round 9).
+	nb := 0
+	for _, f := range files {
+		data, err := os.ReadFile(f)
+		if err != nil {
+			continue
+		}
+		rel := strings.TrimPrefix(f, p.Repo+"/")
+		for i, line := range strings.Split(string(data), "\n") {
+			if strings.HasPrefix(strings.TrimSpace(line), "#") {
+				continue // a scheduler directive or comment: not parsed by the shell
+			}
+			for _, ph := range []string{"__MRO_STDOUT__", "__MRO_STDERR__", "__MRO_JOB_WORKDIR__"} {
+				idx := strings.Index(line, ph)
+				if idx < 0 {
+					continue
+				}
+				nb++
+				before := line[:idx]
+				dq := strings.Count(before, `"`) - strings.Count(before, `\"`)
+				sq := strings.Count(before, `'`)
+				c.Check("H3", "quoted-value-placeholder-outside-quotes("+ph+")@"+rel, token.NoPos, dq%2 == 0 && sq%2 == 0,
+					fmt.Sprintf("%s:%d: %s is replaced by a value that is already wrapped in double quotes; inside quotes of the template the value ends up OUTSIDE any quoting and the shell splits or interprets a path containing a blank, ;, & or (", rel, i+1, ph))
+			}
+		}
+	}
+	c.Floor("H3", "shell-line uses of quoted-value placeholders in the templates", nb, 1)
 }
 
 func paramNamed(fn *ssa.Function, name string) *ssa.Parameter {
